@@ -67,9 +67,23 @@ pub fn string(r: &mut Rng) -> String {
         }
     }
 }
+/// At most one list per generated registry gets a length at a boundary of the format (compact length classes 63/64;
+/// the u8 range of variant indices 255/256/257).
+static BIG_LEFT: std::sync::atomic::AtomicU32 = std::sync::atomic::AtomicU32::new(0);
+pub fn count(r: &mut Rng, max: u64) -> u64 {
+    use std::sync::atomic::Ordering::Relaxed;
+    if !small() && BIG_LEFT.load(Relaxed) > 0 && r.chance(1, 12) {
+        BIG_LEFT.store(0, Relaxed);
+        return *r.pick(&[63u64, 64, 65, 255, 256, 257, 255, 256, 257, 300]);
+    }
+    r.below(max + 1)
+}
+fn arm_big(r: &mut Rng) {
+    BIG_LEFT.store(if r.chance(1, 10) { 1 } else { 0 }, std::sync::atomic::Ordering::Relaxed);
+}
 pub fn strings(r: &mut Rng, max: u64) -> Vec<String> {
     let max = if small() { max.min(1) } else { max };
-    let n = if r.chance(1, 2) { 0 } else { r.below(max + 1) };
+    let n = if r.chance(1, 2) { 0 } else { count(r, max) };
     (0..n).map(|_| string(r)).collect()
 }
 
@@ -96,14 +110,14 @@ pub fn field(r: &mut Rng, idf: &mut dyn FnMut(&mut Rng) -> u32) -> Field<Portabl
 }
 pub fn fields(r: &mut Rng, idf: &mut dyn FnMut(&mut Rng) -> u32, max: u64) -> Vec<Field<PortableForm>> {
     let max = if small() { max.min(2) } else { max };
-    let n = r.below(max + 1);
+    let n = count(r, max);
     (0..n).map(|_| field(r, idf)).collect()
 }
 pub fn typedef(r: &mut Rng, idf: &mut dyn FnMut(&mut Rng) -> u32, wild: bool) -> TypeDef<PortableForm> {
     match r.below(8) {
         0 => TypeDefComposite::new(fields(r, idf, 4)).into(),
         1 => {
-            let n = r.below(4);
+            let n = count(r, 3);
             let vs = (0..n)
                 .map(|i| {
                     let idx = if wild { r.below(256) as u8 } else { i as u8 };
@@ -118,7 +132,7 @@ pub fn typedef(r: &mut Rng, idf: &mut dyn FnMut(&mut Rng) -> u32, wild: bool) ->
             TypeDefArray::new(len, idf(r).into()).into()
         }
         4 => {
-            let n = r.below(5);
+            let n = count(r, 4);
             TypeDefTuple::new_portable((0..n).map(|_| idf(r).into()).collect::<Vec<_>>()).into()
         }
         5 => crate::proto::prim_of_tag(r.below(15) as u32).unwrap().into(),
@@ -132,7 +146,7 @@ pub fn typedef(r: &mut Rng, idf: &mut dyn FnMut(&mut Rng) -> u32, wild: bool) ->
 }
 pub fn ty(r: &mut Rng, idf: &mut dyn FnMut(&mut Rng) -> u32, wild: bool) -> Type<PortableForm> {
     let path = Path::from_segments_unchecked(strings(r, 3));
-    let np = if r.chance(1, 2) { 0 } else { r.below(if small() { 2 } else { 4 }) };
+    let np = if r.chance(1, 2) { 0 } else { count(r, if small() { 1 } else { 3 }) };
     let params = (0..np)
         .map(|_| {
             let t = if r.chance(2, 3) { Some(idf(r).into()) } else { None };
@@ -145,6 +159,7 @@ pub fn ty(r: &mut Rng, idf: &mut dyn FnMut(&mut Rng) -> u32, wild: bool) -> Type
 
 /// A well-formed registry of `n` types (dense ids, every reference below `n`).
 pub fn wf_registry(r: &mut Rng, n: u32) -> PortableRegistry {
+    arm_big(r);
     let mut idf = move |r: &mut Rng| r.below(n as u64) as u32;
     let types = (0..n).map(|i| PortableType::new(i, ty(r, &mut idf, false))).collect();
     PortableRegistry { types }
@@ -167,6 +182,7 @@ pub fn tiny_registry(r: &mut Rng, n: u32) -> PortableRegistry {
 }
 /// An arbitrary registry: ids and references anywhere in u32.
 pub fn wild_registry(r: &mut Rng, n: u32) -> PortableRegistry {
+    arm_big(r);
     let mut idf = |r: &mut Rng| wild_id(r);
     let types = (0..n)
         .map(|_| {
